@@ -1234,7 +1234,12 @@ fn hang_binop_expression(
                                     binop.clone(),
                                     shape,
                                     lhs_range,
-                                    expression_context,
+                                    // The base of an exponent keeps the parentheses around a unary operator
+                                    if let BinOp::Caret(_) = binop {
+                                        ExpressionContext::BinaryLHSExponent
+                                    } else {
+                                        expression_context
+                                    },
                                 )
                             } else {
                                 let context = if let BinOp::Caret(_) = binop {
@@ -1269,7 +1274,11 @@ fn hang_binop_expression(
                             binop.to_owned(),
                             shape,
                             lhs_range,
-                            expression_context,
+                            if let BinOp::Caret(_) = binop {
+                                ExpressionContext::BinaryLHSExponent
+                            } else {
+                                expression_context
+                            },
                         )
                     } else {
                         let context = if let BinOp::Caret(_) = binop {
